@@ -15,6 +15,7 @@ import BqVerif.Proofs.CircRemoveAll
 import BqVerif.Proofs.CircSlice
 import BqVerif.Proofs.CircBatchPopGrid
 import BqVerif.Proofs.CircReplaceWith
+import BqVerif.Proofs.CircInsertAny
 /-! # C04 — Circuit editing calls have their documented effect on program order -/
 namespace BqVerif.C04
 open BqVerif.Circ
@@ -675,5 +676,41 @@ example :
       c.replaceWithCircuit (-2, 0) sub =
         (⟨[2, 2, 2], [[⟨2, [], [1], [2]⟩], [⟨1, [], [2], [2]⟩], [⟨6, [], [2, 0], [2, 2]⟩],
           [⟨2, [], [0], [2]⟩]]⟩, .ok ()) := by decide
+
+/-- **insert_circuit for ANY cycle index** (negative, below `-num_cycles`, past the end): the index
+is resolved ONCE against the cycle count before the insertion (`resolveCycle`: `0` below
+`-num_cycles`, `num_cycles + i` for a negative index in range, `i` otherwise); with `k` the
+resolved cycle and every relabelled operation accepted by `check_valid_operation`, the call
+succeeds and the sub-circuit's operations stand, in forward order, between the cycles `< k` and the
+cycles `≥ k` of every timeline — or at the end of every timeline when `k ≥ num_cycles`. -/
+theorem C04_insert_circuit_any_index (c sub : Circ) (loc : List Nat) (ci0 : Int)
+    (hlen : sub.numQudits = loc.length)
+    (hv : ∀ x ∈ sub.ops, c.checkValid (x.mapLoc loc) = .ok ()) (q : Nat) :
+    ((c.resolveCycle ci0).toNat =
+      if ci0 < -(c.numCycles : Int) then 0
+      else if ci0 < 0 then c.numCycles - (-ci0).toNat else ci0.toNat) ∧
+    (c.insertCircuit ci0 sub loc).2 = .ok () ∧
+    (c.insertCircuit ci0 sub loc).1.timeline q =
+      if (c.resolveCycle ci0).toNat < c.numCycles then
+        proj q (c.cycles.take (c.resolveCycle ci0).toNat).flatten ++
+          proj q (sub.iterRev.reverse.map (·.mapLoc loc)) ++
+          proj q (c.cycles.drop (c.resolveCycle ci0).toNat).flatten
+      else c.timeline q ++ proj q (sub.iter.map (·.mapLoc loc)) :=
+  ⟨resolveCycle_toNat c ci0, insertCircuit_any_timeline c sub loc ci0 hlen hv q⟩
+
+-- non-vacuity: index -1 (before the last cycle), -7 (below the range: at 0), 5 (past the end)
+example :
+    let sub : Circ := ⟨[2, 2], [[⟨1, [], [0], [2]⟩], [⟨6, [], [0, 1], [2, 2]⟩]]⟩
+    let c : Circ := ⟨[2, 2, 2], [[⟨2, [], [1], [2]⟩], [⟨7, [], [2, 0], [2, 2]⟩],
+      [⟨2, [], [0], [2]⟩]]⟩
+    sub.numQudits = [2, 0].length ∧
+      (sub.ops.all fun x => c.checkValid (x.mapLoc [2, 0]) == .ok ()) = true ∧
+      (c.insertCircuit (-1) sub [2, 0]).1.cycles = [[⟨2, [], [1], [2]⟩], [⟨7, [], [2, 0], [2, 2]⟩],
+        [⟨1, [], [2], [2]⟩], [⟨6, [], [2, 0], [2, 2]⟩], [⟨2, [], [0], [2]⟩]] ∧
+      (c.insertCircuit (-7) sub [2, 0]).1.cycles = [[⟨1, [], [2], [2]⟩],
+        [⟨2, [], [1], [2]⟩, ⟨6, [], [2, 0], [2, 2]⟩], [⟨7, [], [2, 0], [2, 2]⟩],
+        [⟨2, [], [0], [2]⟩]] ∧
+      (c.insertCircuit 5 sub [2, 0]).1.cycles = [[⟨2, [], [1], [2]⟩], [⟨7, [], [2, 0], [2, 2]⟩],
+        [⟨2, [], [0], [2]⟩, ⟨1, [], [2], [2]⟩], [⟨6, [], [2, 0], [2, 2]⟩]] := by decide
 
 end BqVerif.C04
